@@ -111,6 +111,36 @@ pub fn scenario_replica_down(mode: &str, pool_size: u32, progs: &[&str], how: &s
     sc
 }
 
+/// pool_size 1 per server, one primary only: c0 holds the server in a transaction, c1's statement is queued for
+/// it, PAUSE arrives, c0 commits: c1 is handed the server, finds the pool paused and gives it back. While it
+/// waits for RESUME nobody holds the server, and the tables have to say so.
+pub fn pause_scenario(mode: &str) -> Scenario {
+    let t = |c: usize, j: usize, k: usize| tag(c, j, k);
+    let mut pool = PoolCfg::simple("db", mode, 1, 1, 0);
+    pool.extra = String::new();
+    let cfg = Cfg::one(pool);
+    let servers = cfg.servers();
+    let c0 = Script::new("c0")
+        .connect("alice", "db", Some("alicepw"))
+        .q(&format!("BEGIN /*{}*/", t(0, 0, 0)))
+        .q(&format!("SELECT 1 /*{}*/", t(0, 0, 1)))
+        .wait(Cond::ActorAt(2, 2))
+        .q(&format!("COMMIT /*{}*/", t(0, 0, 2)))
+        .terminate();
+    let c1 = Script::new("c1").connect("alice", "db", Some("alicepw")).wait(Cond::ActorAt(0, 5)).q(&format!("SELECT 1 /*{}*/", t(1, 0, 0))).q(&format!("SELECT 2 /*{}*/", t(1, 1, 0))).terminate();
+    let admin = env("admin", vec![Step::Wait(Cond::ActorAt(1, 3)), Step::Admin("PAUSE".into()), Step::Wait(Cond::ActorsDone(vec![0])), Step::Probe, Step::Admin("RESUME".into())]);
+    let fin = env("final", vec![Step::Wait(Cond::ActorsDone(vec![0, 1, 2])), Step::Admin("SHOW POOLS".into()), Step::Admin("SHOW SERVERS".into()), Step::Probe]);
+    Scenario {
+        name: format!("C18 mode={} pool_size=1 progs=txn+queued cancel=false pause=yes", mode),
+        toml: cfg.toml(),
+        alt_tomls: vec![],
+        servers,
+        actors: vec![c0.actor(), c1.actor(), admin, fin],
+        opts: Opts { probe_each: true, ..Opts::default() },
+        meta: serde_json::json!({"n": 2, "progs": ["txn", "queued"], "mode": mode}),
+    }
+}
+
 pub fn scenario_cached(mode: &str, pool_size: u32, progs: &[&str], with_cancel: bool, cache: usize) -> Scenario {
     let mut pool = PoolCfg::simple("db", mode, pool_size, 1, 1);
     if cache > 0 {
@@ -182,8 +212,11 @@ pub fn oracle(sc: &Scenario, out: &Outcome) -> Vec<Violation> {
     let mut last_req: BTreeMap<usize, (u8, bool)> = BTreeMap::new(); // conn -> (code of pending client request, client originated)
     let mut prev_totals: BTreeMap<String, u64> = BTreeMap::new();
     let mut in_batch: BTreeMap<usize, bool> = BTreeMap::new();
+    let mut paused = false;
     for e in log {
         match &e.rec {
+            Rec::Event { label, .. } if label == "admin(PAUSE)" => paused = true,
+            Rec::Event { label, .. } if label == "admin(RESUME)" => paused = false,
             Rec::CRecv { c, msg } if *c < n => {
                 if msg.code == b'R' && msg.body == 0i32.to_be_bytes() {
                     auth_ok.insert(*c);
@@ -313,7 +346,10 @@ pub fn oracle(sc: &Scenario, out: &Outcome) -> Vec<Violation> {
                     // states
                     let want_active = connected.iter().filter(|c| held.contains_key(c)).count() as u64;
                     let want_waiting = connected.iter().filter(|c| !held.contains_key(c) && outstanding.get(c).map(|t| !reached.contains(t)).unwrap_or(false)).count() as u64;
-                    if a != want_active || w != want_waiting {
+                    // (a client held by PAUSE has a request outstanding and no server: the pooler shows it as idle
+                    // or as waiting depending on where it was caught; either is fine, "active" is not)
+                    let state_ok = if paused { a == want_active && w <= want_waiting } else { a == want_active && w == want_waiting };
+                    if !state_ok {
                         push(
                             &mut vs,
                             "C18.client-state",
@@ -408,6 +444,9 @@ pub fn build(tier: &str) -> SimCheck {
             scenarios.push(scenario_cached(mode, pool_size, &["ext", "txn"], false, 8));
             scenarios.push(scenario(mode, pool_size, &["txn", "drop-in-txn", "autos"], true));
             scenarios.push(scenario(mode, pool_size, &["stay", "txn", "stay"], false));
+            if pool_size == 1 {
+                scenarios.push(pause_scenario(mode));
+            }
             for how in ["refuse", "close", "fatal"] {
                 scenarios.push(scenario_replica_down(mode, pool_size, &["autos", "txn"], how));
                 if thorough {
@@ -421,7 +460,7 @@ pub fn build(tier: &str) -> SimCheck {
         oracle: Box::new(oracle),
         bound: if thorough { 3 } else { 2 },
         limits: Limits { max_wall_s: if thorough { 2400.0 } else { 55.0 }, ..Default::default() },
-        rule: "scenario = pool mode x pool_size {1,2} (1 primary + 1 replica) x 1-3 client programs out of 14 (transactions over both protocols, multi-statement, failed, COPY in/out, bad password, unknown pool, hard drop while idle / in transaction, FIN and Terminate in transaction, staying connected, admin clients leaving by Terminate / vanishing / thrown out for sending Parse) with an optional cancel-request connection; also with a replica that cannot be logged in to (refuses / closes / FATAL at startup); all schedules with <= bound deviations; after EVERY event the pooler's registries (what SHOW POOLS/CLIENTS/SERVERS/STATS print) are compared with a ledger kept from the scripted clients' and the reference backend's logs; the SHOW commands themselves are run at the end".into(),
+        rule: "scenario = pool mode x pool_size {1,2} (1 primary + 1 replica) x 1-3 client programs out of 14 (transactions over both protocols, multi-statement, failed, COPY in/out, bad password, unknown pool, hard drop while idle / in transaction, FIN and Terminate in transaction, staying connected, admin clients leaving by Terminate / vanishing / thrown out for sending Parse) with an optional cancel-request connection; also a statement queued for the only server when PAUSE arrives (handed the server, gives it back, waits); also with a replica that cannot be logged in to (refuses / closes / FATAL at startup); all schedules with <= bound deviations; after EVERY event the pooler's registries (what SHOW POOLS/CLIENTS/SERVERS/STATS print) are compared with a ledger kept from the scripted clients' and the reference backend's logs; the SHOW commands themselves are run at the end".into(),
         assumptions: vec!["the registries are read through the same public functions the SHOW commands use (get_client_stats, get_server_stats, PoolStats::construct_pool_lookup, AddressStats)".into()],
     }
 }
